@@ -8,6 +8,75 @@ applicable to this vector (its side conditions fail), so nothing is promised.
 
 Error values are `(code, abv)`: 1 ErrInvalidCVSSHeader, 2 ErrTooShortVector, 3 ErrInvalidMetricOrder,
 4 ErrInvalidMetricValue, 101 *ErrInvalidMetric{Abv}, 102 *ErrDefinedN{Abv}, 103 *ErrMissing{Abv}.
+
+## What is promised and what is not: every case in which `Defect.apply ver w d = none`
+
+`apply` itself does not look at whether `w` is the witness list of a grammatical vector; the theorems of
+`Props/C18*.lean` add that hypothesis (`∃ s0, Witness s0 w`). Positions are 0-based indices into `w`.
+A side condition exists for one of three reasons: (R1) the result would not be defective at all, (R2) the
+result would not be a *single* defect of the named kind (it would read as a different list of elements, or
+carry two defects), (R3) the documentation promises nothing for that version.
+
+* `header p` (the header replaced by the bytes `p`; the rest of the string, from the first `/` on, is kept):
+  - `ver = v2.0`: v2.0 vectors have no header (R3).
+  - `ver.header` (the bare `CVSS:3.0` / `CVSS:3.1` / `CVSS:4.0`, **without** a slash) is a prefix of
+    `p ++ rest`: the string still begins with the right header, so it is either the original (R1) or a
+    vector whose defect is not "a wrong or missing header" in the sense of this generator (R2). This side
+    condition is *narrower than the code's behaviour for v3*: the v3 parsers test the prefix `CVSS:3.x/`
+    (with the slash), so `CVSS:3.1X/AV:…` (header followed by junk) also gets ErrInvalidCVSSHeader although
+    this generator cannot produce it. The unconditional statement, for every byte string and not only for
+    generated ones, is `C18.header30`, `C18.header31`, `C18.header40` in `Props/C18.lean`: v3.x — every string
+    that does not begin with `CVSS:3.x/` ; v4.0 — every string that does not begin with `CVSS:4.0` (no slash:
+    `CVSS:4.0X…` is *not* a header error in v4.0, see `C18.v40_header_then_junk`).
+  - `p` is otherwise arbitrary (empty = header missing, another version's header, junk, bytes containing `/`).
+* `illegalValue i v` (the value of element `i` replaced by `v`):
+  - `i ≥ w.length`: no such element.
+  - `v` is a legal value of the metric of element `i`: not a defect (R1).
+  - `v` contains `/`: the string would split into different elements (R2). `v` may be empty and may
+    contain `:`.
+* `removeMandatory i` (element `i` deleted):
+  - `ver` is v2.0 or v4.0: the typed `*ErrMissing` exists in v3 only (R3); there a shortened vector is
+    covered by `truncate`, and a base metric missing in the middle is not promised anything by this Spec.
+  - `i ≥ w.length`: no such element.
+  - element `i` is not one of the eight base metrics: an optional metric may be absent (R1).
+* `repeated i j v` (an element `a:v` inserted at position `j`, `a` the abbreviation of element `i`; the
+  new element is `result[j]`, `j = w.length` appends):
+  - `i ≥ w.length`: no such element.
+  - `v` is not a legal value of `a`: that would be two defects, a repeat and an illegal value (R2).
+  - `j > w.length`: no such position. Every `0 ≤ j ≤ w.length` is covered, including directly before or
+    after the original.
+  - promised: v3 `*ErrDefinedN{a}`; v2.0/v4.0 ErrInvalidMetricOrder. (v2.0: the code deviates from this
+    promise when the insertion lands after a complete environmental group, finding F3 — that is a fact
+    about the code, `C18.V2.v2_errors_afterEnv`, not a side condition of this Spec.)
+* `unknown j a v` (an element `a:v` inserted at position `j`):
+  - `a` is an abbreviation of the version's metric table: that is `repeated` (R2).
+  - `a` contains `/` or `:`: the string would not read as an element with abbreviation `a` (R2). `a` may be
+    empty.
+  - `v` contains `/`: as for `illegalValue` (R2). `v` may be empty or contain `:`.
+  - `j > w.length`: no such position.
+  - promised: v3 `*ErrInvalidMetric{a}`; v2.0/v4.0 ErrInvalidMetricOrder (v2.0: same remark about F3).
+* `swap i` (elements `i` and `i+1` exchanged):
+  - `ver` is v3.0/v3.1: the order of metrics is free in v3, the result is a valid vector (R1).
+  - `i + 1 ≥ w.length`: no such pair.
+* `move i j` (element `i` taken out and put back so that it is `result[j]`:
+  `result = insertAt (w.eraseIdx i) j w[i]`; `move i (i+1)` and `move (i+1) i` are both `swap i`):
+  - `ver` is v3.0/v3.1: as for `swap` (R1).
+  - `i ≥ w.length`: no such element.
+  - `j = i`: nothing moves, the result is `w` (R1). For every other `j` the result differs from `w`,
+    because the abbreviations of a grammatical vector are pairwise distinct.
+  - `j ≥ w.length`: no such position (the result has the length of `w`, its positions are `0 … w.length-1`).
+* `truncate n` (only the first `n` elements kept):
+  - `ver` is v3.0/v3.1: ErrTooShortVector is promised for v2.0 and v4.0 only; in v3 a lost base metric is
+    `removeMandatory`, a lost optional metric is no defect (R3).
+  - v2.0, `n = 0`: the empty string, no group has been started (R3).
+  - v2.0, `n ≥ w.length`: nothing is cut (R1).
+  - v2.0, `n ∈ {6, 9, 11, 14}` (`V2.completeLengths`): the lengths at which *some* v2.0 vector is complete.
+    This is **coarser than necessary**: `n = 9` in a base+environmental vector and `n = 11` in a
+    base+temporal+environmental vector cut inside the environmental group, and the text promises
+    ErrTooShortVector there too. The exact statement (every cut `1 ≤ n < w.length` whose kept part is not
+    itself a complete vector) is proved separately: `C18.V2.truncated_inside_group`.
+  - v4.0, `n ≥ 11`: the base group is complete; what remains is a valid vector (R1). `n = 0` (the bare
+    header) is covered.
 -/
 namespace Spec
 
@@ -52,6 +121,8 @@ inductive Defect where
   | swap (i : Nat)
   /-- v2/v4: keep only the first `n` elements, ending inside a group that must be complete -/
   | truncate (n : Nat)
+  /-- v2/v4: take element `i` out and put it back at position `j ≠ i` of the result ("misplaced") -/
+  | move (i j : Nat)
 deriving Repr
 
 def insertAt {α} (xs : List α) (j : Nat) (x : α) : List α := xs.take j ++ x :: xs.drop j
@@ -104,6 +175,15 @@ def Defect.apply (ver : Version) (w : List Pair) : Defect → Option (Bytes × E
     | .v20 => if n ≥ 1 ∧ n < w.length ∧ !V2.completeLengths.contains n then some (ver.render (w.take n), (2, [])) else none
     | .v40 => if n < 11 then some (ver.render (w.take n), (2, [])) else none
     | _ => none
+  | .move i j =>
+    match ver with
+    | .v30 | .v31 => none
+    | _ =>
+      match w[i]? with
+      | none => none
+      | some p =>
+        if j = i ∨ w.length ≤ j then none
+        else some (ver.render (insertAt (w.eraseIdx i) j p), (3, []))
 
 /-- Get/Set on an unknown abbreviation: `*ErrInvalidMetric{abv}`; Set with an illegal value of a known
     metric: `ErrInvalidMetricValue`; otherwise no error. -/
